@@ -312,6 +312,27 @@ theorem step_setCollCore {del : ObjId → St → Res} (hdel : ∀ x st, Step s0 
           · rw [← hres] at habs; cases habs
     · rw [← hres]; exact Step.refl _ _
 
+/-- the status write at the end of `_delete_` together with its undo entry -/
+theorem step_killL {st : St} (o : ObjId) (hal : st.store.alive o = true) :
+    Step s0 st ((st.setStore (st.store.setAlive o false)).log (.status o true)) := by
+  apply Step.push
+  intro s'' ⟨hn, hrows⟩
+  refine ⟨hn, fun p hp => ?_⟩
+  obtain ⟨h1, h2, h3, h4⟩ := hrows p hp
+  refine ⟨h1, h2, h3, ?_⟩
+  intro hc
+  simp only [undo1, Store.setAlive]
+  split
+  · rename_i hpo; rw [hpo]; exact hal.symm
+  · rename_i hpo
+    have h5 := h4 (fun hc' => hc (by
+      obtain ⟨e, he, hw⟩ := hc'
+      rcases List.mem_cons.mp he with rfl | he
+      · exact absurd hw hpo
+      · exact ⟨e, he, hw⟩))
+    simp only [Store.setAlive, if_neg hpo] at h5
+    exact h5
+
 /-- `Entity._delete_` -/
 theorem step_delete : ∀ (fuel : Nat) (o : ObjId) (st : St), Step s0 st (delete sch fuel o st).st := by
   intro fuel
@@ -322,12 +343,7 @@ theorem step_delete : ∀ (fuel : Nat) (o : ObjId) (st : St), Step s0 st (delete
     simp only [delete]
     split
     · exact Step.refl _ _
-    · rename_i hal
-      have hal' : st.store.alive o = true := by simpa using hal
-      have h0 := step_status (s0 := s0) (st := st) o hal'
-      have hcov0 : Cov (st.log (Undo.status o true)).trail o := ⟨.status o true, by simp [St.log], rfl⟩
-      refine h0.trans ?_
-      apply step_bind
+    · apply step_bind
       · apply step_bind
         · apply step_iter
           intro c s
@@ -360,45 +376,10 @@ theorem step_delete : ∀ (fuel : Nat) (o : ObjId) (st : St), Step s0 st (delete
                     · exact Step.refl _ _
                 · exact step_reverseRemove _ _ _ _
           · exact Step.refl _ _
-      · intro stB hB
-        -- the trail of `stB` extends the trail that starts with the status entry of `o`
-        have hext : ∃ pre, stB.trail = pre ++ (st.log (Undo.status o true)).trail := by
-          have h1 : ∀ (r : Res), r = .ok stB → Step s0 (st.log (Undo.status o true)) r.st → ∃ pre, stB.trail = pre ++ (st.log (Undo.status o true)).trail := by
-            intro r hr hs; rw [hr] at hs; exact hs.ext
-          refine h1 _ hB ?_
-          apply step_bind
-          · apply step_iter
-            intro c s
-            split
-            · split
-              · exact Step.refl _ _
-              · split
-                · exact Step.refl _ _
-                · split
-                  · exact step_iter (fun x st => ih x st) _ _
-                  · split
-                    · exact step_setCollCore (fun x st => ih x st) true o c [] s _ rfl (Or.inl rfl)
-                    · exact Step.refl _ _
-            · exact Step.refl _ _
-          · intro st1 _
-            apply step_iter
-            intro a s
-            split
-            · split
-              · exact Step.refl _ _
-              · split
-                · exact Step.refl _ _
-                · split
-                  · split
-                    · exact ih _ _
-                    · split
-                      · split
-                        · exact step_attrClearRev _ _ _
-                        · exact Step.refl _ _
-                      · exact Step.refl _ _
-                  · exact step_reverseRemove _ _ _ _
-            · exact Step.refl _ _
-        exact step_kill o (Cov.of_ext hext hcov0)
+      · intro stB _
+        split
+        · exact Step.refl _ _
+        · rename_i hal; exact step_killL o (by simpa using hal)
 
 theorem step_updateReverse (fuel : Nat) (d rd : Side) (o : ObjId) (a : Attr) (old v : Option ObjId) (st : St) :
     Step s0 st (updateReverse sch fuel d rd o a old v st).st := by
